@@ -92,12 +92,14 @@ static void jdig(const char *key, const void *p, size_t n) { fprintf(OUT, ",\"%s
 #define GUARD (1 << 16)
 typedef struct {
     int haveA, fmt /*0 NC, 1 NR*/, m, n; int_t nnz; val_t *a; int_t *idx, *ptr; SuperMatrix A;
-    int haveB, nrhs, ldb; val_t *b, *x; SuperMatrix B, X;
+    int haveB, nrhs, ldb, ldx; val_t *b, *x; SuperMatrix B, X;
     int haveL, haveU; SuperMatrix L, U;
     int *perm_c, *perm_r, *etree; real_t *R, *C; char equed[4];
     real_t *ferr, *berr; real_t rpg, rcond;
     GlobalLU_t Glu; mem_usage_t mu; SuperLUStat_t stat; int haveStat; superlu_options_t opt;
     unsigned char *work_raw; char *work; long lwork; int walign; int usework;
+    long work_alloc;          /* bytes really allocated behind `work` (>= lwork when the caller passes a shorter length later) */
+    uint64_t tail_dig;        /* digest of work[lwork, work_alloc) taken before a call */
     int_t info;
     int ilu;
     int lu_user;      /* the factors held live inside a caller workspace */
@@ -280,16 +282,20 @@ static void cmd_mutate(char *s)
 }
 static void cmd_rhs(char *s)
 {
-    ctx_t *c = cx; int nrhs, ldb;
-    if (sscanf(s, "%d %d", &nrhs, &ldb) < 2) { fprintf(stderr, "bad rhs\n"); _exit(98); }
+    /* rhs <nrhs> <ldb> [<ldx>] : B is m x nrhs with leading dimension ldb, X likewise with ldx (default ldb) */
+    ctx_t *c = cx; int nrhs, ldb, ldx = -1;
+    int got = sscanf(s, "%d %d %d", &nrhs, &ldb, &ldx);
+    if (got < 2) { fprintf(stderr, "bad rhs\n"); _exit(98); }
+    if (got < 3 || ldx < 0) ldx = ldb;
     free_B(c);
-    c->nrhs = nrhs; c->ldb = ldb; long tot = (long)ldb * nrhs;
-    c->b = (val_t *)SUPERLU_MALLOC((tot + 1) * sizeof(val_t)); c->x = (val_t *)SUPERLU_MALLOC((tot + 1) * sizeof(val_t));
+    c->nrhs = nrhs; c->ldb = ldb; c->ldx = ldx; long tot = (long)ldb * nrhs, totx = (long)ldx * nrhs;
+    c->b = (val_t *)SUPERLU_MALLOC((tot + 1) * sizeof(val_t)); c->x = (val_t *)SUPERLU_MALLOC((totx + 1) * sizeof(val_t));
     own(c->b); own(c->x);
     char *p = nextline();
-    for (long i = 0; i < tot; i++) { double re = rdnum(&p), im = 0; if (NCOMP == 2) im = rdnum(&p); MKVAL(c->b[i], re, im); MKVAL(c->x[i], -12345.0, 54321.0); }
+    for (long i = 0; i < tot; i++) { double re = rdnum(&p), im = 0; if (NCOMP == 2) im = rdnum(&p); MKVAL(c->b[i], re, im); }
+    for (long i = 0; i < totx; i++) MKVAL(c->x[i], -12345.0, 54321.0);
     FN(Create_Dense_Matrix)(&c->B, c->m, nrhs, c->b, ldb, SLU_DN, DTYPE, SLU_GE);
-    FN(Create_Dense_Matrix)(&c->X, c->m, nrhs, c->x, ldb, SLU_DN, DTYPE, SLU_GE);
+    FN(Create_Dense_Matrix)(&c->X, c->m, nrhs, c->x, ldx, SLU_DN, DTYPE, SLU_GE);
     own(c->B.Store); own(c->X.Store);
     c->haveB = 1;
 }
@@ -317,7 +323,7 @@ static void cmd_work(char *s)
     if (sscanf(s, "%ld %d", &lw, &al) < 2) { fprintf(stderr, "bad work\n"); _exit(98); }
     /* an earlier workspace may still hold factors of this context: it is never released inside a scenario */
     c->work_raw = 0;
-    c->lwork = lw; c->walign = al; c->usework = 1;
+    c->lwork = lw; c->walign = al; c->usework = 1; c->work_alloc = lw > 0 ? lw : 0;
     if (lw > 0) {
         size_t tot = (size_t)lw + 2 * GUARD + 64;
         c->work_raw = malloc(tot); memset(c->work_raw, 0xE7, tot);
@@ -367,10 +373,10 @@ static void take_snap(const ctx_t *c, snap_t *s)
     s->a0 = malloc((c->nnz + 1) * sizeof(val_t)); memcpy(s->a0, c->a, c->nnz * sizeof(val_t));
     s->dptr = fnv(c->ptr, (outer + 1) * sizeof(int_t)); s->didx = fnv(c->idx, c->nnz * sizeof(int_t));
     if (c->haveB) {
-        long tot = (long)c->ldb * c->nrhs;
+        long tot = (long)c->ldb * c->nrhs, totx = (long)c->ldx * c->nrhs;
         s->b0 = malloc((tot + 1) * sizeof(val_t)); memcpy(s->b0, c->b, tot * sizeof(val_t));
-        s->x0 = malloc((tot + 1) * sizeof(val_t)); memcpy(s->x0, c->x, tot * sizeof(val_t));
-        s->dpadB = pad_digest(c->b, c->m, c->nrhs, c->ldb); s->dpadX = pad_digest(c->x, c->m, c->nrhs, c->ldb);
+        s->x0 = malloc((totx + 1) * sizeof(val_t)); memcpy(s->x0, c->x, totx * sizeof(val_t));
+        s->dpadB = pad_digest(c->b, c->m, c->nrhs, c->ldb); s->dpadX = pad_digest(c->x, c->m, c->nrhs, c->ldx);
     }
     s->dpc = fnv(c->perm_c, 64 * sizeof(int)); s->dpr = fnv(c->perm_r, 64 * sizeof(int)); s->det = fnv(c->etree, 64 * sizeof(int));
     s->dR = fnv(c->R, 64 * sizeof(real_t)); s->dC = fnv(c->C, 64 * sizeof(real_t)); s->eq0 = c->equed[0];
@@ -392,10 +398,10 @@ static void snap_json(const ctx_t *c, const snap_t *s)
         fprintf(OUT, ",\"nrhs\":%d,\"ldb\":%d", c->nrhs, c->ldb);
         dense_json("B0", s->b0, c->m, c->nrhs, c->ldb);
         dense_json("B1", c->b, c->m, c->nrhs, c->ldb);
-        dense_json("X1", c->x, c->m, c->nrhs, c->ldb);
-        fprintf(OUT, ",\"padB_same\":%d,\"padX_same\":%d", s->dpadB == pad_digest(c->b, c->m, c->nrhs, c->ldb), s->dpadX == pad_digest(c->x, c->m, c->nrhs, c->ldb));
-        long tot = (long)c->ldb * c->nrhs;
-        fprintf(OUT, ",\"X_same\":%d,\"B_same\":%d", memcmp(s->x0, c->x, tot * sizeof(val_t)) == 0, memcmp(s->b0, c->b, tot * sizeof(val_t)) == 0);
+        dense_json("X1", c->x, c->m, c->nrhs, c->ldx);
+        fprintf(OUT, ",\"ldx\":%d,\"padB_same\":%d,\"padX_same\":%d", c->ldx, s->dpadB == pad_digest(c->b, c->m, c->nrhs, c->ldb), s->dpadX == pad_digest(c->x, c->m, c->nrhs, c->ldx));
+        long tot = (long)c->ldb * c->nrhs, totx = (long)c->ldx * c->nrhs;
+        fprintf(OUT, ",\"X_same\":%d,\"B_same\":%d", memcmp(s->x0, c->x, totx * sizeof(val_t)) == 0, memcmp(s->b0, c->b, tot * sizeof(val_t)) == 0);
     }
     fprintf(OUT, ",\"same\":{\"perm_c\":%d,\"perm_r\":%d,\"etree\":%d,\"R\":%d,\"C\":%d,\"equed\":%d,\"Lval\":%d,\"Uval\":%d,\"Lstr\":%d,\"Ustr\":%d}",
             s->dpc == fnv(c->perm_c, 64 * sizeof(int)), s->dpr == fnv(c->perm_r, 64 * sizeof(int)), s->det == fnv(c->etree, 64 * sizeof(int)),
@@ -404,11 +410,20 @@ static void snap_json(const ctx_t *c, const snap_t *s)
 }
 static void free_snap(snap_t *s) { free(s->a0); free(s->b0); free(s->x0); }
 
+static uint64_t tail_digest(const ctx_t *c) { return (c->work && c->lwork >= 0 && c->work_alloc > c->lwork) ? fnv(c->work + c->lwork, (size_t)(c->work_alloc - c->lwork)) : 0; }
 static void work_json(const ctx_t *c)
 {
     if (!c->usework) return;
-    long below, above; int ok = guards_ok(c, &below, &above);
-    fprintf(OUT, ",\"work\":{\"lwork\":%ld,\"align\":%d,\"guards_ok\":%d,\"below\":%ld,\"above\":%ld}", c->lwork, c->walign, ok, below, above);
+    long below, above; int ok = 1; below = above = 0;
+    if (c->work_raw && c->work_alloc > 0) {
+        for (unsigned char *p = c->work_raw; p < (unsigned char *)c->work; p++) if (*p != 0xE7) below++;
+        size_t tot = (size_t)c->work_alloc + 2 * GUARD + 64;
+        for (unsigned char *p = (unsigned char *)c->work + c->work_alloc; p < c->work_raw + tot; p++) if (*p != 0xE7) above++;
+        ok = below == 0 && above == 0;
+    }
+    /* bytes of the buffer beyond the length the caller passed must be untouched too */
+    int tail_ok = c->tail_dig == tail_digest(c);
+    fprintf(OUT, ",\"work\":{\"lwork\":%ld,\"align\":%d,\"guards_ok\":%d,\"below\":%ld,\"above\":%ld,\"alloc\":%ld}", c->lwork, c->walign, ok && tail_ok, below, above + (tail_ok ? 0 : 1), c->work_alloc);
 }
 
 /* ------------------------------------------------------------------ calls */
@@ -449,6 +464,7 @@ static void call_gssvx(int ilu)
     c->ledger_mark = slu_v_mark();
     c->info = -9999; c->rpg = (real_t)-77; c->rcond = (real_t)-77; c->mu.for_lu = c->mu.total_needed = -77;
     int hadLU = c->haveL;
+    c->tail_dig = tail_digest(c);
     void *work = c->usework ? (void *)c->work : NULL; int_t lwork = c->usework ? (int_t)c->lwork : 0;
     if (ilu)
         FN(gsisx)(&c->opt, &c->A, c->perm_c, c->perm_r, c->etree, c->equed, c->R, c->C, &c->L, &c->U, work, lwork,
@@ -491,6 +507,7 @@ static void call_gstrf(int ilu)
     c->ledger_mark = slu_v_mark();
     if (c->opt.ColPerm != MY_PERMC && c->opt.Fact == DOFACT) get_perm_c(c->opt.ColPerm, &c->A, c->perm_c);
     sp_preorder(&c->opt, &c->A, c->perm_c, c->etree, &AC);
+    c->tail_dig = tail_digest(c);
     void *work = c->usework ? (void *)c->work : NULL; int_t lwork = c->usework ? (int_t)c->lwork : 0;
     c->info = -9999;
     if (ilu) FN(gsitrf)(&c->opt, &AC, sp_ienv(2), sp_ienv(1), c->etree, work, lwork, c->perm_c, c->perm_r, &c->L, &c->U, &c->Glu, &c->stat, &c->info);
@@ -584,6 +601,7 @@ static void run_scenario(void)
         else if (!strcmp(cmd, "permr")) { for (int i = 0; i < cx->m; i++) cx->perm_r[i] = (int)rdint(&rest); }
         else if (!strcmp(cmd, "work")) cmd_work(rest);
         else if (!strcmp(cmd, "nowork")) { cx->usework = 0; }
+        else if (!strcmp(cmd, "relwork")) { long lw = rdint(&rest); if (cx->work_raw && lw <= cx->work_alloc) { cx->lwork = lw; cx->usework = 1; } }   /* same buffer, shorter length */
         else if (!strcmp(cmd, "events")) slu_v_set_events(atoi(rest));
         else if (!strcmp(cmd, "failalloc")) { char sub[64]; int line; long kk; int st = 0; if (sscanf(rest, "%63s %d %ld %d", sub, &line, &kk, &st) >= 3) slu_v_fail(!strcmp(sub, "*") ? "" : sub, line, kk, st); }
         else if (!strcmp(cmd, "nofail")) slu_v_fail("", 0, 0, 0);
